@@ -8,27 +8,27 @@ VERIF = os.path.dirname(os.path.dirname(os.path.abspath(__file__)))
 T = {
  "C01": (True, "reference-model monitor (M-scale∘M-prop) over generated keyframe sets evaluated on real derive/builder timelines",
          "Runtime monitoring: thousands (quick) to hundreds of thousands (thorough) of real timelines are built through the public builder from generated keyframe sets and every evaluated property is compared with an independent executable model of CSS keyframe interpolation; a small scope is enumerated exhaustively. Held = no disagreement on the executions observed.",
-         "Trusts rustc/std f32 arithmetic; easing curves are uninterpreted (C13); timing restricted to the dyadic exact regime (C03 covers inexact timing).", "§4 C01"),
- "C02": (True, "analytic-oracle monitor at exact keyframe/boundary instants in the dyadic exact regime, plus off-grid timing judged well after the end / inside the delay",
-         "Runtime monitoring of real timelines at times that map exactly onto every keyframe position of every property in every cycle, onto the delay, the end of each forward pass and times at/after the total duration; oracle = the keyframe / 0 % / 100 % / terminal value (ints exact, floats <= 4 ulp, terminal bits constant). A second stream uses cycles off the dyadic grid (0.1 s, 0.7 s, ...) and judges only well after the end and well inside the delay.",
+         "Trusts rustc/std f32 arithmetic; easing curves are uninterpreted (C13); timing restricted to instants whose position is exact in f32 — power-of-two cycles, and cycles such as 3, 41, 0.75 s at their j/2^m fractions (C03 covers inexact timing).", "§4 C01"),
+ "C02": (True, "analytic-oracle monitor at exact keyframe/boundary instants (power-of-two and other short-mantissa cycles), off-grid timing judged well after the end / inside the delay, and builders with omitted timing setters",
+         "Runtime monitoring of real timelines at times that map exactly onto every keyframe position of every property in every cycle, onto the delay, the end of each forward pass and times at/after the total duration; oracle = the keyframe / 0 % / 100 % / terminal value (ints exact, floats <= 4 ulp, terminal bits constant). A second stream uses cycles off the dyadic grid (0.1 s, 0.7 s, ...) and judges only well after the end and well inside the delay. One plain timeline in eight is built with some of the duration / delay / repeat setters omitted and judged against what a bare builder reports for them (which must be a valid configuration).",
          "Only configurations whose f32 intermediates are exact are generated; ambiguous cases (same property twice at a position) are never judged.", "§4 C02"),
  "C03": (True, "exhaustive/dense sweep of the f32 time axis against an f64 model with boundary bands + bit-exact dyadic grid relations",
-         "Runtime monitoring of TimeScale::get_position and of Timeline::update on a linear probe over every f32 bit pattern (thorough) / stride-61 + all floats within 4096 ulp of each phase boundary (quick) for fixed and random timing configurations; bit-exact comparison, periodicity and mirror relations on a dyadic grid; metadata accessors tied to observed behaviour.",
+         "Runtime monitoring of TimeScale::get_position and of Timeline::update on a linear probe over every f32 bit pattern (thorough) / stride-61 + all floats within 4096 ulp of each phase boundary (quick) for fixed and random timing configurations; bit-exact comparison, periodicity and mirror relations on a dyadic grid; an exact stream over 4 280 configurations whose cycle is not a power of two (all integer cycles 1..100 s and some fractional ones, at every j/64 fraction of every cycle); a three-keyframe probe for the resting values; metadata accessors (also through the single-component MergedTimeline wrapper, also with negative totals) tied to observed behaviour.",
          "Inside a band of about one ulp around a wrap / turning point / end instant either side is accepted (counted).", "§4 C03"),
  "C04": (True, "relational monitor over exhaustively enumerated and random operation histories (before/after set_state snapshots, twin animator)",
-         "Runtime monitoring: all histories to depth 5 (quick) / 7 (thorough) over a 10-operation alphabet on a pool of animator configurations plus random long histories with probe suffixes; current_values must be bit-identical immediately before and after every set_state, and a twin that never receives set_state(current) must follow the identical trajectory.",
+         "Runtime monitoring: all histories to depth 5 (quick) / 7 (thorough) over a 10-operation alphabet on a pool of animator configurations plus random long histories (now and then with a step of 2e12 s .. f32::MAX) with probe suffixes; current_values must be bit-identical immediately before and after every set_state, and a twin that never receives set_state(current) must follow the identical trajectory.",
          "Model-free; bit equality identifies +0.0 and -0.0; values are f32-representable.", "§4 C04"),
  "C05": (True, "history + executable model (M-anim with twin timelines) compared after every operation",
-         "Runtime monitoring: the same exploration engine as C04; after every operation current_state, current_values (bit-exact) and is_ended are compared with the M-anim reference model of blend/pause/resume (bit-exact at the model's own f32 reading of the time in state, else at a neighbouring f32 reading within float rounding); the hook snapshot is logged as a diagnostic only.",
+         "Runtime monitoring: the same exploration engine as C04; after every operation current_state, current_values (bit-exact) and is_ended are compared with the M-anim reference model of blend/pause/resume (bit-exact at the model's own f32 reading of the time in state, else at a neighbouring f32 reading within float rounding; the phase of an endless timeline after 2^40 s is not judged); the hook snapshot is logged as a diagnostic only.",
          "M-anim delegates timeline evaluation to twin instances of the real timelines (C09/C10/C12 decide those).", "§4 C05"),
  "C06": (True, "relational monitor between real animators over all step compositions of each interval",
-         "Runtime monitoring: every composition of each inter-transition interval (2^(m-1) schedules, m <= 9 quick / 12 thorough), with and without interleaved zero-length advances, must give values, state and is_ended bit-identical to the single-step run; inexact f32 splits are compared against an envelope of single-step runs; same-frame transitions with inserted zero-length advances; Times(n) timelines off the dyadic grid delivered cycle by cycle / at once / in halves must agree well after their end.",
+         "Runtime monitoring: every composition of each inter-transition interval (2^(m-1) schedules, m <= 9 quick / 12 thorough), with and without interleaved zero-length advances, must give values, state and is_ended bit-identical to the single-step run; inexact f32 splits are compared against an envelope of single-step runs; same-frame transitions with inserted zero-length advances; Times(n) timelines off the dyadic grid delivered cycle by cycle / at once / in halves must agree well after their end; a total longer than anything (1.8e19 s .. f32::MAX) delivered before / after / together with an ordinary step must leave a finite animation in the same resting state, and advance(0) must change nothing afterwards.",
          "Grid units convert to Duration exactly; envelope cases that straddle a discontinuity are counted as inconclusive_band.", "§4 C06"),
  "C07": (True, "history monitor with totals and terminal values computed from the configuration, cross-checked with twin timelines",
-         "Runtime monitoring of is_ended and current_values across advances that land exactly on, just before, just after and far beyond the total duration (on- and off-grid configurations, merged and infinite components), followed by 50 further advances: exactness, monotonicity, never-ended-when-infinite, values resting at the terminal values.",
+         "Runtime monitoring of is_ended and current_values across advances that land exactly on, just before, just after and far beyond the total duration, up to steps of f32::MAX seconds (on- and off-grid configurations, merged and infinite components), followed by 50 further advances: exactness, monotonicity, never-ended-when-infinite, values resting at the terminal values.",
          "Where cycle, delay, cycle x (repeats+1), the advances or the f32 reading of the time are not exact, a band of 2 ulp (+1 ns per advance) around the end instant accepts either answer.", "§4 C07"),
  "C08": (True, "sentinel bit-pattern monitor on targets and animator values",
-         "Runtime monitoring: targets pre-filled with random bit patterns (NaN payloads included) are compared bit-for-bit after update in every phase for every field outside the animated-and-keyframed set (excluded fields, un-keyframed properties, empty and merged timelines), and across animator histories.",
+         "Runtime monitoring: targets pre-filled with random bit patterns (NaN payloads included) are compared bit-for-bit after update in every phase for every field outside the animated-and-keyframed set (excluded fields, un-keyframed properties, empty and merged timelines), and across the histories of builder-built and animator!-built animators (looping arms without a 0 % keyframe, timing-only, merged and overlapping arms).",
          "The animated-and-keyframed set is computed from the generated specification.", "§4 C08"),
  "C09": (True, "relational monitor across query orders, clones, prior target contents and start_with sequences (bit-exact)",
          "Runtime monitoring: each generated timeline is evaluated at ~64 times in ascending, random, backward and repeated order, into sentinel-filled and previously-written targets and through clones taken before/after; every result must be bit-identical to the first; Debug digest unchanged; only the last start_with counts and metadata is unaffected.",
@@ -37,7 +37,7 @@ T = {
          "Runtime monitoring of a timeline and its start_with twin over dense times in all phases: exactly v up to the delay, model-conform blend only before the property's first keyframe after 0 % in the first forward pass, bit-identical everywhere else (reverse pass, later cycles, after the end).",
          "Two keyframes of one property at 0 % are never judged.", "§4 C10"),
  "C11": (True, "relational monitor over all/random insertion-order permutations against the ascending-order twin (bit-exact)",
-         "Runtime monitoring: every insertion order for n <= 5 (quick) / 6 (thorough) keyframes, random orders beyond, compared bit-for-bit with the ascending-order twin at ~100 times and on metadata.",
+         "Runtime monitoring: every insertion order for n <= 5 (quick) / 6 (thorough) keyframes, random orders beyond, compared bit-for-bit with the ascending-order twin at ~100 times and on metadata; eight timeline! sentences each written in 6 / 12 orders of their keyframes are compared the same way.",
          "The ascending twin's own correctness is C01's subject.", "§4 C11"),
  "C12": (True, "relational monitor: merged vs in-order application of the real components; aggregate accessors vs configuration",
          "Runtime monitoring of MergedTimeline over lists of 0..4 real components (overlapping/disjoint, heterogeneous timing, extreme repeat counts): update equals ordered overlay bit-for-bit, order-independence when disjoint, start_with reaches all, delay=min, duration=max, repeat=max with Infinite on top, common cycle or none, single == component, empty touches nothing.",
@@ -64,7 +64,7 @@ T = {
          "Runtime monitoring of selector/chain: every history of length 4 (quick) / 5 (thorough) over {no-op, assign 4 keys} x 4 frame deltas for 30 configurations (chains with cycles/self-loops/missing entries, second animated component) plus random long histories; each frame must be explained by the specification under some system order and race outcome.",
          "chain/select are mutually unordered in mina's registration, so either order is accepted; the explicit-assignment race accepts both documented outcomes.", "§4 C19"),
  "C20": (True, "hostile-alphabet monitor under catch_unwind with NaN/inf scanning and a dev-vs-release output-log diff (overflow-checks as arithmetic sanitizer)",
-         "Runtime monitoring with extreme but valid configurations (repeat counts up to u32::MAX, cycles/delays from MIN_POSITIVE to f32::MAX, boundary positions, +-1e37 values, full-range integer properties under all easings, times at every boundary +-1 ulp and up to f32::MAX, animator advances beyond Duration::MAX): every call under catch_unwind, outputs scanned for non-finite values, duration() compared with the documented total, and the identical seeded workload run in the dev (overflow-checks, debug-assertions) and release builds with the output logs diffed.",
+         "Runtime monitoring with extreme but valid configurations (repeat counts up to u32::MAX, cycles/delays from MIN_POSITIVE to f32::MAX, boundary positions, +-1e37 values, full-range integer properties under all easings, times at every boundary +-1 ulp and up to f32::MAX, animator advances beyond Duration::MAX, builders with any subset of the timing setters left out, the empty merged timeline): every call under catch_unwind, outputs scanned for non-finite values, duration() compared with the documented total, and the identical seeded workload run in the dev (overflow-checks, debug-assertions) and release builds with the output logs diffed.",
          "Extreme negative delays and values beyond 1e37 are outside the generated space.", "§4 C20"),
 }
 PENDING = "check not built yet in this round (planned in DESIGN.md §4); not claimed until its monitor exists"
